@@ -227,6 +227,16 @@ def rule_b(repo, chk, p, ex):
             bad = q
     chk.ob('b', pb.ref, 'body bytes moved to the body are removed from the carry on every path', bad is None and bool(appends), loc(pb, pb.node),
            path=pat.path_lines(bad) if bad else None, discr='body-consumed')
+    # Content-Length bodies: complete exactly when nothing is left to receive
+    comp = [n for n in gb.nodes if n.kind == 'stmt' and 'self' in pat.stores_attr(n.ast, '__on_message_complete', True)]
+    rest_edges = [e for n in gb.nodes if n.kind == 'test' for e in n.succ if pat.fact_matches(pat.compare_fact(n.ast, e.kind), 'self._clen_rest', ('<=',), '0')
+                  or pat.fact_matches(pat.compare_fact(n.ast, e.kind), 'self._clen_rest', ('<',), '1') or pat.fact_matches(pat.compare_fact(n.ast, e.kind), 'self._clen_rest', ('==',), '0')]
+    okc = bool(rest_edges) and all(e.dst in comp or Q.escapes(gb, [e.dst], lambda m: m in comp) is None for e in rest_edges)
+    chk.ob('b', pb.ref, 'a Content-Length body is complete exactly when the remaining length reaches 0', okc, loc(pb, pb.node), discr='clen-complete-at-zero')
+    dec = [n for n in gb.nodes if n.kind == 'stmt' and isinstance(n.ast, ast.AugAssign) and src(n.ast.target) == 'self._clen_rest' and isinstance(n.ast.op, ast.Sub)]
+    okd = len(dec) == 1 and src(dec[0].ast.value) == 'len(body_part)' and all(Q.reachable_without(gb, a, avoid_node=lambda m: m in dec) is None
+                                                                              for a in appends if not any(k == 'try' for k, _x in a.ctx) and Q.reaches(dec[0], a))
+    chk.ob('b', pb.ref, 'the remaining length is reduced by exactly the number of body bytes consumed', okd, loc(pb, pb.node), discr='clen-decrement')
     short = [e for n in gb.nodes if n.kind == 'test' for e in n.succ if e.kind == 'T' and ('len(rest) < size' in src(n.ast) or src(n.ast) == 'size is None')]
     bad = None
     for e in short:
